@@ -21,7 +21,7 @@ enumeration at run time); ties; NaN ordering.
 import ast
 import re
 
-from mmsa import au, cfg as cfgmod, dataflow, search
+from mmsa import au, cfg as cfgmod, dataflow, pathcond, search
 from mmsa.core import Undecided, norm, walk_no_nested
 from mmsa.props import c02
 from mmsa.types import FuncCtx
@@ -65,6 +65,19 @@ def enclosing_conditions(node_ast, stop):
       elif any(cur is s for s in par.orelse):
         out.append((par.test, False, par))
     cur, par = par, getattr(par, '_parent', None)
+  return out
+
+
+def split_literals(conds):
+  """Conditions split into their literals where the taken branch asserts a plain conjunction (`not (a > b)` taken
+  false asserts `a > b`; `a and b` taken true asserts both)."""
+  out = []
+  for e, taken, ifst in conds:
+    dnf = pathcond.literals(e, taken)
+    if len(dnf) == 1:
+      out += [(a, t, ifst) for a, t in dnf[0]]
+    else:
+      out.append((e, taken, ifst))
   return out
 
 
@@ -149,7 +162,11 @@ def r1_r2_r4(repo, rep):
 def classify_skip(repo, rep, view, cn, conds, T, C, tests):
   """Name of the allowed reason, or None."""
   g, rd, f = view.g, view.rd, view.f
-  for e, taken, ifst in conds:
+  seen_ = set()
+  for e, taken, ifst in list(conds) + split_literals(conds):
+    if (id(e), taken) in seen_:
+      continue
+    seen_.add((id(e), taken))
     node = g.node_of(ifst)
     ex = rd.expand(node, e)[0]
     txt = norm(ex)
@@ -167,8 +184,10 @@ def classify_skip(repo, rep, view, cn, conds, T, C, tests):
     if taken and isinstance(e, ast.Call) and isinstance(e.func, ast.Name) and e.func.id in view.orig.nested and len(e.args) == 1 and norm(e.args[0]) == T:
       return 'superset of a stored over-max pattern'
     # optimistic budget screens
-    m = re.fullmatch(r'(.+) (>|<) %sbudget_range\[(0|1)\]' % re.escape(P), txt)
-    if m and taken:
+    m = None
+    for form in sorted(pathcond.rel_forms(ex, taken)):
+      m = m or re.fullmatch(r'(.+) (>|<) %sbudget_range\[(0|1)\]' % re.escape(P), form)
+    if m:
       v, op, idx = m.group(1), m.group(2), m.group(3)
       mm_ = re.fullmatch(r'(\w+)\.estimate_required_impact\(%srho_max\) / %siroas' % (re.escape(P), re.escape(P)), v)
       if mm_ and ((op == '>' and idx == '1') or (op == '<' and idx == '0')):
@@ -225,11 +244,16 @@ def r3_pruning(repo, rep, view, T):
     par = getattr(n.ast, '_parent', None)
     while par is not None and not isinstance(par, ast.For):
       par = getattr(par, '_parent', None)
-    conds = enclosing_conditions(n.ast, par)
-    texts = [(norm(rd.expand(g.node_of(i), e)[0]), t) for e, t, i in conds]
-    over = [x for x, t in texts if t and re.fullmatch(r'(\w+)\.estimate_required_impact\(%srho_max\) / %siroas > %sbudget_range\[1\]' % (re.escape(P), re.escape(P), re.escape(P)), x)]
-    other = [x for x, t in texts if x not in over and not re.fullmatch(r'%sbudget_range is not None' % re.escape(P), x)
-             and not re.fullmatch(r'\w+ != .+', x)]
+    conds = split_literals(enclosing_conditions(n.ast, par))
+    texts = []      # (display text, asserted, all spellings of the asserted relation)
+    for e, t, i in conds:
+      ex_ = rd.expand(g.node_of(i), e)[0]
+      texts.append((norm(ex_), t, pathcond.rel_forms(ex_, t)))
+    re_over = r'(\w+)\.estimate_required_impact\(%srho_max\) / %siroas > %sbudget_range\[1\]' % (re.escape(P), re.escape(P), re.escape(P))
+    allowed = (r'%sbudget_range is not None' % re.escape(P), r'\w+ != .+')
+    over = [x for x, t, forms in texts if any(re.fullmatch(re_over, fm) for fm in forms)]
+    other = [x for x, t, forms in texts if x not in over and not any(re.fullmatch(a_, fm) for a_ in allowed for fm in forms)]
+    texts = [(x, t) for x, t, _ in texts]
     arg = norm(call.args[0]) if isinstance(call, ast.Call) and call.args else ''
     rep.check(bool(over) and not other and arg == T, 'R3/pruning', 'a treatment group is stored for pruning only when its optimistic budget exceeds the maximum', f.qualname,
               '%s under %s' % (norm(call)[:50], ' and '.join(('' if t else 'not ') + x[:60] for x, t in texts)),
@@ -260,6 +284,8 @@ def r5_ordering(repo, rep):
     rep.undecided('R5/ordering', 'TBRMMScore.score', 'expected one Scoring(...) construction', getter.loc())
   else:
     c = calls[0]
+    gctx = FuncCtx.of(getter)
+    cnode = gctx.node_at(c)
     slots = {}
     for i, a in enumerate(c.args):
       if fields and i < len(fields):
@@ -270,7 +296,7 @@ def r5_ordering(repo, rep):
       if name not in slots:
         rep.violation('R5/ordering', getter.qualname, 'slot %s missing' % name, 'score slot %s is not filled' % name, getter.loc(c))
         continue
-      t = norm(slots[name])
+      t = norm(gctx.rd.expand(cnode, slots[name])[0])
       rep.check(re.fullmatch(SLOT_EXPR[name], t) is not None, 'R5/ordering', 'score slot %s = %s' % (name, t), getter.qualname, '%s=%s' % (name, t),
                 'score slot %s is filled with `%s` instead of the documented quantity' % (name, t), getter.loc(slots[name]))
     rep.floor('score slots', len(slots), 6)
